@@ -14,6 +14,7 @@ from ._fields import BaseAttributes, BaseInputs, BaseOutputs
 from ._node import Node, OpType
 from ._scope import Scope
 from ._shape import SimpleShape
+from ._type_system import Optional as OptionalType
 from ._type_system import Tensor, Type
 from ._value_prop import PropValueType
 from ._var import Var
@@ -42,6 +43,8 @@ from ._var import Var
 # spares us any special casing if we want to use `seq`.
 # This effectively sets the lower bound on every model.
 INTERNAL_MIN_OPSET = 14
+# Identity (which internal operators are built into) accepts optional types only from this version on.
+IDENTITY_OPTIONAL_MIN_OPSET = 16
 
 
 class _InternalNode(Node, ABC):
@@ -166,6 +169,9 @@ class _Introduce(_InternalNode):
 
     @property
     def opset_req(self) -> Set[Tuple[str, int]]:
+        # The values are forwarded with Identity nodes
+        if any(isinstance(var.type, OptionalType) for var in self.inputs.inputs):
+            return {("", IDENTITY_OPTIONAL_MIN_OPSET)}
         return {("", INTERNAL_MIN_OPSET)}
 
     def to_onnx(
